@@ -31,6 +31,12 @@ func dbsimGen(r *rand.Rand, mode string, thorough bool) dbCase {
 	}
 	c := dbCase{Keys: genKeys(r, nkeys)}
 	nsess := 1 + r.Intn(3)
+	// backlog shape: a session without compactions and with a tiny memstore leaves dozens of small tables behind
+	// (far more than any file threshold), the next session compacts them in one cycle
+	backlog := mode != "resources" && r.Intn(8) == 0
+	if backlog && nsess < 2 {
+		nsess = 2
+	}
 	for s := 0; s < nsess; s++ {
 		opts := genOpts(r)
 		nops := 10 + r.Intn(50)
@@ -52,9 +58,22 @@ func dbsimGen(r *rand.Rand, mode string, thorough bool) dbCase {
 			opts.Ratio = pick(r, float32(0.2), 0.5, 1, 1, 1)
 			delFrac = 30
 		}
+		if backlog {
+			if s == 0 {
+				opts.Compactions = false
+				opts.Memstore = 64
+				nops = 50 + r.Intn(40)
+				getFrac = 5
+			} else {
+				opts.Compactions = true
+				if r.Intn(2) == 0 {
+					opts.MaxSize = 5 << 30
+				}
+			}
+		}
 		if mode == "resources" {
 			opts.Memstore = pick(r, uint64(64), 128, 256)
-			opts.Compactions = true
+			opts.Compactions = r.Intn(4) != 0 // Close must also end everything when no compactor was configured
 			opts.Threshold = pick(r, 1, 2, 3)
 			nops = 60 + r.Intn(200)
 		}
@@ -69,7 +88,7 @@ func dbsimGen(r *rand.Rand, mode string, thorough bool) dbCase {
 			// a single very large value (far beyond the memstore limit and the buffers)
 			prog[len(prog)/2] = dbOp{Kind: "put", Key: r.Intn(nkeys), ValLen: pick(r, 5000, 50000, 300000)}
 		}
-		if mode == "lineage" && r.Intn(2) == 0 {
+		if mode == "lineage" && opts.MaxSize < 1<<20 && r.Intn(2) == 0 {
 			// one big early value so that the oldest table exceeds the size limit
 			prog = append([]dbOp{{Kind: "put", Key: 0, ValLen: int(opts.MaxSize) + 100}, {Kind: "put", Key: 1 % nkeys, ValLen: 40}}, prog...)
 		}
@@ -106,6 +125,7 @@ type dbsimOutcome struct {
 	flushed                 int
 	partial                 int
 	cycles                  int
+	maxSel                  int
 	tablesMax               int
 	trace                   []simrt.Event
 	hist                    []*opRec
@@ -194,9 +214,9 @@ func runDBCase(c *Ctx, dc dbCase, tape *simrt.Tape, mode string) dbsimOutcome {
 	out.trace = r.w.Trace()
 	out.hist = r.hist
 	if mode == "lineage" {
-		cv, partial, cycles := analyzeCompactions(out.trace)
+		cv, partial, cycles, maxSel := analyzeCompactions(out.trace)
 		out.vs = append(out.vs, cv...)
-		out.partial, out.cycles = partial, cycles
+		out.partial, out.cycles, out.maxSel = partial, cycles, maxSel
 	}
 	if mode == "resources" {
 		rv, excess := analyzeResources(out.trace)
@@ -273,6 +293,10 @@ func dbsimMain(c *Ctx) {
 		c.Count("probe:compactions-completed", out.compacted)
 		c.Count("probe:flushes-completed", out.flushed)
 		c.Count("probe:compaction-selection-excluding-oldest-table", out.partial)
+		c.CountMax("max:tables-merged-in-one-cycle", out.maxSel)
+		if out.maxSel > 16 {
+			c.Count("probe:cycles-merging-more-than-16-tables", 1)
+		}
 		c.Count("compaction-cycles-checked", out.cycles)
 		if c.Mode == "resources" {
 			if v, ok := c.Res.Counters["max:resource-use-minus-bound"]; !ok || out.tablesMax > v {
@@ -401,7 +425,7 @@ var rootTableRe = regexp.MustCompile(`^sstable_[0-9]+$`)
 
 // analyzeCompactions checks, for every compaction cycle of the trace, that the selected tables form a gap-free
 // run of the live tables in age order and that the merged table takes the run's place in that order.
-func analyzeCompactions(trace []simrt.Event) (vs []dbViolation, partial, cycles int) {
+func analyzeCompactions(trace []simrt.Event) (vs []dbViolation, partial, cycles, maxSel int) {
 	live := map[string]bool{}
 	selectedBy := map[string][]string{} // compaction dir -> selected base names
 	for _, e := range trace {
@@ -457,6 +481,7 @@ func analyzeCompactions(trace []simrt.Event) (vs []dbViolation, partial, cycles 
 			sort.Strings(sel)
 			selectedBy[cdir] = sel
 			cycles++
+			maxSel = max(maxSel, len(sel))
 			var all []string
 			for t := range live {
 				all = append(all, t)
